@@ -139,7 +139,10 @@ def check(ctx: Ctx) -> list[RuleResult]:
     for s in ctx.cg.callers_of(repo.func(f"{base}._send_frame")):
         r2.instances += 1
         r2.nontrivial += 1
-        if s.caller.qualname == f"{P}.PortProtocol._send_cmd.send_cmd":
+        # the closure (whatever it is called) that PortProtocol._send_cmd hands to the FSM as its write function
+        psc = repo.func(f"{P}.PortProtocol._send_cmd")
+        handed = {a.id for c in own_nodes(psc.node) if isinstance(c, ast.Call) and isinstance(c.func, ast.Attribute) and c.func.attr == "send_cmd" and "_context" in norm(c.func.value) for a in c.args if isinstance(a, ast.Name)}
+        if s.caller.parent is psc and s.caller.name in handed:
             r2.ok({"_send_frame_from": s.caller.short})
         else:
             r2.fail(f"{s.caller.short}:_send_frame", s.caller.loc(s.node), "_send_frame is called outside PortProtocol._send_cmd's closure")
